@@ -49,9 +49,17 @@ func (e *Engine) structFieldStores(v ssa.Value, name string) []ssa.Value {
 
 // conditionEvaluators: core functions that build a MatchInput with ExpressionTypeConditional (today: Table.matchKey).
 func (e *Engine) conditionEvaluators() []*ssa.Function {
+	// the core function that decides "this is a write condition": it stores the constant kind "conditional" into a
+	// MatchInput – itself, or through a helper that receives the kind as a parameter (then the caller passing the constant)
+	seen := map[*ssa.Function]bool{}
 	var out []*ssa.Function
+	add := func(fn *ssa.Function) {
+		if !seen[fn] {
+			seen[fn] = true
+			out = append(out, fn)
+		}
+	}
 	for _, fn := range e.funcs("core") {
-		hit := false
 		instrs(fn, func(in ssa.Instruction) {
 			st, ok := in.(*ssa.Store)
 			if !ok {
@@ -61,14 +69,32 @@ func (e *Engine) conditionEvaluators() []*ssa.Function {
 			if f == nil || f.Name() != "ExpressionType" || fieldOwner(f) != "MatchInput" {
 				return
 			}
-			if s, ok := constString(st.Val); ok && s == "conditional" {
-				hit = true
+			if s, ok := constString(st.Val); ok {
+				if s == "conditional" {
+					add(fn)
+				}
+				return
+			}
+			p, isParam := strip(st.Val).(*ssa.Parameter)
+			if !isParam {
+				return
+			}
+			idx := -1
+			for i, q := range fn.Params {
+				if q == p {
+					idx = i
+				}
+			}
+			for _, c := range e.callersOf(fn) {
+				if idx >= 0 && idx < len(c.Common().Args) {
+					if s, ok := constString(c.Common().Args[idx]); ok && s == "conditional" {
+						add(c.Parent())
+					}
+				}
 			}
 		})
-		if hit {
-			out = append(out, fn)
-		}
 	}
+	sort.Slice(out, func(i, j int) bool { return out[i].Pos() < out[j].Pos() })
 	return out
 }
 
@@ -308,7 +334,7 @@ func init() {
 					}
 					// the request's ConditionExpression must flow into the evaluator's QueryInput
 					flows := false
-					instrs(fn, func(in ssa.Instruction) {
+					e.walkLocal("core", fn, 2, func(in ssa.Instruction, ctx []callCtx) {
 						st, ok := in.(*ssa.Store)
 						if !ok {
 							return
@@ -317,7 +343,7 @@ func init() {
 						if f == nil || f.Name() != "ConditionExpression" || fieldOwner(f) != "QueryInput" {
 							return
 						}
-						for _, o := range e.origins(st.Val) {
+						for _, o := range e.originsCtx(st.Val, ctx) {
 							if strings.HasSuffix(o, "ItemInput.ConditionExpression") {
 								flows = true
 							}
